@@ -714,6 +714,11 @@ def c15_multi(ctx):
         if live:
             ctx.model("c15-multi-live-" + nm, dict(c, MaxSend=0), [], ["Completes"], spec="FairSpec")
         ctx.export_validate("c15x-multi-" + nm, c, "multi", maxsched=120 if q else 6000)
+    # the two clients allow different versions: A (2 and 3) ends up with the v3-only client under tags, or with the v2-only one
+    c = dict(Multi=True, PolA=3, PolB=2, PolC=1, Prelude=[QA], MaxSend=1, MaxFlight=2)
+    ctx.model("c15-multi-mixed", c, ["BystanderIgnored", "PairedWithBound", "OtherNeverSecure", "NoBoundReject", "QuietImpliesPaired"], ["BoundStable"])
+    ctx.model("c15-multi-live-mixed", dict(c, MaxSend=0), [], ["Completes"], spec="FairSpec")
+    ctx.export_validate("c15x-multi-mixed", c, "multi", maxsched=80 if q else 6000)
     # life of the binding: End and a new start by any of the three
     c = dict(Multi=True, PolA=2, PolB=2, PolC=2, Prelude=[QA], MaxSend=0 if q else 1, MaxFlight=2, MaxEnd=1, MaxQuery=0 if q else 1)
     ctx.model("c15-multi-life", c, ["BystanderIgnored", "DeliveredFromBound", "PairedWithBound", "OtherNeverSecure"], ["BoundStable"])
